@@ -221,7 +221,32 @@ func c11(g *Gen) {
 					eprob = append(eprob, "requesting "+bad+" gave no error")
 				}
 			}
-			g.Emit("C11.errors!", list(atom(strings.Join(eprob, "; "))), boolS(len(eprob) == 0), "bad-requests")
+			// a package whose FIRST file parses and whose second does not, requested again after the error:
+			// every request reports the error, and what is loaded afterwards holds no half of the package
+			os.MkdirAll(filepath.Join(base, "half"), 0755)
+			os.WriteFile(filepath.Join(base, "half", "a.go"), []byte("package half\n\ntype A struct{ X int }\n"), 0644)
+			os.WriteFile(filepath.Join(base, "half", "b.go"), []byte("package half\n\ntype B struct {\n"), 0644)
+			{
+				half := fmt.Sprintf("ex.test/c%d/half", i)
+				b := parser.New()
+				if err := b.AddDir(half); err == nil {
+					eprob = append(eprob, "requesting a package whose second file does not parse gave no error")
+				}
+				if err := b.AddDir(half); err == nil {
+					eprob = append(eprob, "requesting it a second time gave no error")
+				}
+				if err := b.AddDir(reqL[0]); err == nil {
+					if u, err := b.FindTypes(); err == nil {
+						if hp, ok := u[half]; ok && len(hp.Types) > 0 {
+							eprob = append(eprob, fmt.Sprintf("after the failed requests the universe holds %d type(s) of the half-parsed package", len(hp.Types)))
+						}
+						if err := b.AddDirTo(half, &u); err == nil {
+							eprob = append(eprob, "requesting it into the universe (AddDirTo) gave no error")
+						}
+					}
+				}
+			}
+			g.Emit("C11.errors!", list(atom(strings.Join(eprob, "; "))), boolS(len(eprob) == 0), "bad-requests", "half-parsable-package-requested-again")
 		}
 		os.RemoveAll(filepath.Join(src, "ex.test", fmt.Sprintf("c%d", i)))
 	}
